@@ -31,6 +31,7 @@ func init() {
 			c.run("C05-R11", "TYPESTATE: the transfer worker signals completion last, so the handler gives the session up only when the worker is done", func(c *Ctx) { completionClosedLast(c, "TrzszFilter.", 1) })
 			c.run("C05-S3", "shared with C13-R7: the wrapper's input pump reads the user's side, its output pump the remote side", c13Sides)
 			c.run("C05-R12", "GUARDED-BY: the drag buffers shared between the input pump and its delayed workers are only touched under their mutex", guardedBy)
+			c.run("C05-R13", "GUARD-DOM: a drag detector answers with files only when its scan reached the end of the input", dragWholeInput)
 			c.run("C05-S2", "shared with C19-R1: header detection and the five-CAN cancel marker", c19R1)
 			c.run("C05-S1", "shared with C06-R3: the words that mark a finished transfer in scroll-back are the words the servers print (a replayed, finished handshake stays plain output)", c06R3)
 		})
@@ -868,6 +869,65 @@ func guardedBy(c *Ctx) {
 		}
 		if n < 3 {
 			c.undecided("guarded-by/"+g.field, "fewer accesses than expected")
+		}
+	}
+}
+
+// dragWholeInput: typed input is claimed as a drag only when it is, entirely, a list of paths (C05: "input that is
+// entirely a list of existing local paths"). Decided here: the structural part — each platform detector answers with
+// a file list only on the exit edge of its scanning loop, where the scan position has reached the input's length
+// (or, for the one-path Windows form, after the whole input but its closing quote was checked as one path). A loop
+// that stops early ("the rest is too short to be a path") claims input with an unscanned tail. Not decided: what
+// counts as a path on each platform.
+func dragWholeInput(c *Ctx) {
+	for _, nm := range []string{"detectDragFilesOnLinux", "detectDragFilesOnMacOS", "detectDragFilesOnWindows"} {
+		f := c.fn(nm)
+		buf := f.Params[0]
+		isLen := func(v ssa.Value) bool {
+			for _, l := range origins(v, originOpts{}) {
+				if !isLenOf(strip(l.V), func(x ssa.Value) bool {
+					for _, o := range origins(x, originOpts{throughSlice: true}) {
+						if call, _ := callOf(o.V); call != nil {
+							continue // buf = append(buf, ' ') / TrimSpace(buf[1:]): still the input
+						}
+						if strip(o.V) != ssa.Value(buf) {
+							return false
+						}
+					}
+					return true
+				}) {
+					return false
+				}
+			}
+			return true
+		}
+		n := 0
+		eachInstr(f, func(in ssa.Instruction) {
+			r, ok := in.(*ssa.Return)
+			if !ok || isNilConst(retVal(r, 0)) {
+				return
+			}
+			n++
+			fs := factsAt(in.Block())
+			scanned := factCmp(fs, token.GEQ, anyValue, isLen)
+			if !scanned {
+				// the one-path form: detectFilePath(string(buf[:length-1])) was true
+				for _, call := range factCalls(fs, "trzsz.detectFilePath", true) {
+					var arg ssa.Value = call.Call.Args[0]
+					if cv, isConv := arg.(*ssa.Convert); isConv {
+						arg = cv.X
+					}
+					if sl, isSl := arg.(*ssa.Slice); isSl && (sl.Low == nil || isConstIntV(0)(sl.Low)) && sl.High != nil {
+						if b, isB := sl.High.(*ssa.BinOp); isB && b.Op == token.SUB && isLen(b.X) && isConstIntV(1)(b.Y) {
+							scanned = true
+						}
+					}
+				}
+			}
+			c.check(scanned, nm+"/answers-only-after-whole-input", c.ipos(in), "a file list is answered only when the scan reached the end of the input", "the detector can answer with a file list although the scan stopped before the end of the input: typed bytes after the last recognised path are swallowed with the claim")
+		})
+		if n == 0 {
+			c.undecided(nm+"/answers-only-after-whole-input", "no successful answer found in the detector")
 		}
 	}
 }
